@@ -29,6 +29,17 @@ def run(name, seed):
     B = e2.transform(dc(c.X), **dc(c.tr_kw))
     ca, cb = zoo.canon(A), zoo.canon(B)
     out["diff"] = zoo.diff(ca, cb, c.exact, c.rtol)
+    # "on the same data": the very same input object given to fit and then to transform (no copy in between) -
+    # a fit that edits its input in place changes what transform sees
+    try:
+        Xs, kws = dc(c.X), dc(c.fit_kw)
+        e4 = c.make()
+        e4.fit(Xs, **kws)
+        kwt = {k: (kws[k] if k in kws else v) for k, v in dc(c.tr_kw).items()}
+        B4 = e4.transform(Xs, **kwt)
+        out["same_object_diff"] = zoo.diff(ca, zoo.canon(B4), c.exact, c.rtol)
+    except Exception as e:
+        out["same_object_diff"] = "fit(X).transform(X) on one input object raised %s: %s" % (type(e).__name__, str(e)[:200])
     # the same claim for an estimator object with a past (fitted on other data and used before): a refit must not
     # remember anything of the earlier model
     e3 = c.make()
